@@ -41,7 +41,7 @@ CLAIMS = {
   note="fresh-symbol space enumerated up to 4096 combinations; original symbols over bounded carriers",
   tech=TECH + "TLC-enumerated formulas converted by pySMT, model-by-model equisatisfiability validated by TLC with Eval", ref="DESIGN.md 3 C11"),
  "C13": dict(
-  text="(A) TLC model-checks the implementation-shaped TheoryLE/TheoryCombine over all triples of valid theories of the interacting flags: partial order, combine is an upper bound, order respects Expressible. (B/C) real get_logic/get_theory results on TLC-generated formulas are validated against the independent feature extraction Features() (bound-variable sorts, operator families, non-linearity, const arrays, custom sorts, quantifiers); the real <= on all named logics (dumped from the code at check time), combine on the closure of reachable theories, and get_closer_logic/most_generic_logic on enumerated supported-logic subsets are validated by TLC against the order axioms and selection contracts.",
+  text="(A) TLC model-checks the implementation-shaped TheoryLE/TheoryCombine over all triples of valid theories of the interacting flags: partial order, combine is an upper bound, order respects Expressible. (B/C) real get_logic/get_theory results on TLC-generated formulas are validated against the independent feature extraction Features() (bound-variable sorts, operator families, non-linearity, const arrays, custom sorts, quantifiers); the real <= on all named logics (dumped from the code at check time), combine on the closure of reachable theories, and get_closer_logic/most_generic_logic on enumerated supported-logic subsets are validated by TLC against the order axioms and selection contracts. Factory.get_solver is replayed on solver doubles that only declare LOGICS (random solver tables, preference lists, named / unnamed requests) and validated by FactoryContract, a refinement of the closest-logic contract: the solver instantiated supports the request, is the first supporting one of the preference list, and is handed its closest logic.",
   note="Features()/Expressible() of Logics.tla; difference-logic refinements are not among the listed features; NoLogicAvailableError is an allowed answer of get_logic",
   tech=TECH + "design model checking of the order + trace validation of recorded detection / order / selection results", ref="DESIGN.md 3 C13"),
  "C16": dict(
